@@ -888,7 +888,7 @@ func unop(fr *frame, instr *ssa.UnOp, x value) value {
 			}
 			return symInt{i.wrap(r, x.k, true), x.k}
 		case symFloat:
-			return symFloat{&Term{S: "(fp.neg " + x.t.S + ")", Sort: SFP}}
+			return symFloat{t: &Term{S: "(fp.neg " + x.t.S + ")", Sort: SFP}}
 		case int:
 			return -x
 		case int8:
@@ -1253,13 +1253,18 @@ func conv(i *interpreter, t_dst, t_src types.Type, x value) value {
 					}
 					return float64(k)
 				}
-				return symFloat{&Term{S: "((_ to_fp 11 53) RNE (to_real " + xs.t.S + "))", Sort: SFP}}
+				return symFloat{t: &Term{S: "((_ to_fp 11 53) RNE (to_real " + xs.t.S + "))", Sort: SFP}}
 			}
 		}
 		panic(unsupported("conversion of symbolic %s to %s", t_src, t_dst))
 	case symFloat:
 		if b, ok := ut_dst.(*types.Basic); ok && b.Kind() == types.Float64 {
 			return x
+		}
+		if b, ok := ut_dst.(*types.Basic); ok && b.Info()&types.IsInteger != 0 && xs.num != nil {
+			// exact: trunc(num/den) (the float was built as num/den from an integer of moderate size)
+			q := binop(i, token.QUO, types.Typ[types.Int64], symInt{xs.num, types.Int64}, xs.den)
+			return conv(i, t_dst, types.Typ[types.Int64], q)
 		}
 		panic(unsupported("conversion of symbolic float to %s", t_dst))
 	case symBool:
